@@ -11,7 +11,7 @@ def run(prop, tier, seed, t0):
     exe = build.build_harness(s[0], s[1], **s[2])
     R = core.Runner(prop, tier, seed)
     res = core.Result()
-    nc, nd = (60000, 6000) if thorough else (1600, 220)
+    nc, nd = (60000, 6000) if thorough else (2200, 220)   # the first 552 cases are the exhaustive (L, l<=L) level grid
     R.run_sharded(res, exe, ['side=0'], nc, label='h_c14/asan', variant='asan')
     R.run_sharded(res, exe, ['side=1'], nd, label='h_c14/asan', variant='asan')
     cov = {
@@ -20,7 +20,7 @@ def run(prop, tier, seed, t0):
         'rule': 'compression side: (L, l<=L) level pairs for estimateCCtxSize / estimateCStreamSize, exact cParams vectors (strategy x minMatch x {min,mid,max} logs) for *_usingCParams, CCtxParams vectors (LDM sub-parameters, row finder, minMatch 3, maxBlockSize, targetCBlockSize, stable buffers) for *_usingCCtxParams, static CDict/DDict; '
                 'each used inside a guard-zoned block of exactly the estimated size with --wrap=malloc counting (must stay 0), source sizes around the size tiers; decoder side: frames with windows 2^10..2^22(24) against limits W around the frame window on buffering histories (heap + static DStream), forged window descriptors, counting allocator vs estimateDStreamSize, ZSTD_sizeof_* vs bytes held. '
                 'distinct non-trivial = distinct estimate cells (kind, level pair / strategy,minMatch,windowLog / option flags) + window-limit decision cells',
-        'compression_cases': res.stat('cside_cases'), 'static_context_uses': res.stat('static_uses'), 'params_rejected': res.stat('params_rejected'),
+        'level_grid': 'all (L, l<=L) pairs for L in -3..19, one-shot and streaming (exhaustive, 552 cases), input 1.5 MB', 'compression_cases': res.stat('cside_cases'), 'static_context_uses': res.stat('static_uses'), 'params_rejected': res.stat('params_rejected'),
         'min_slack_bytes(estimate - ZSTD_sizeof_CCtx)': -res.maxes.get('min_slack_negated', 0), 'decoder_cases': res.stat('dside_cases'), 'forged_header_cases': res.stat('forged_header_cases'),
         'sizeof_checks': res.stat('sizeof_checks'), 'window_limit_decisions': res.cells.get('dlimit', {}), 'static_dstream_decisions': res.cells.get('dstatic', {}),
         'min_decoder_slack_bytes': -res.maxes.get('decoder_slack_negated', 0),
